@@ -358,6 +358,8 @@ class Server(object):
             if op in ('compress', 'compress_noswitch', 'encrypt',
                       'success') and \
                     self._plugins_pending(app) and not (
+                        op == 'success' and
+                        app.beh.get('success_no_wait')) and not (
                         app.beh.get('pipeline_plugins') and
                         (op == 'encrypt' or
                          (app.beh['pipeline_plugins'] == 'all' and
